@@ -625,6 +625,12 @@ def eq(fr, l, r, node):
         if (l.isbool or len(l.bits) == 1) and rc in (0, 1):
             b = l.bit(0)
             return AInt([b ^ (1 ^ rc)], isbool=True)
+        if getattr(I, "fn_compare_structural", False) and l.ext is None:
+            # an uninterpreted check value compared with a received constant: kept as a condition (nothing is learnt about the
+            # function by guessing its value), decided only if something branches on it
+            sb = [x for x in I.simp_bits(l.bits) if not (isinstance(x, F) and x.is_const)]
+            if sb and all(isinstance(x, F) and len(x.atoms()) == 1 and isinstance(I.atoms.names[x.atoms()[0]], tuple) and I.atoms.names[x.atoms()[0]][0] == "fn" for x in sb):
+                return ACond("eq", l, fr.to_int(rc))
         return I.decide_eq(l.msb_first(len(l.bits)), rc, f"{fr.fi.name}:{getattr(node, 'lineno', 0)}")
     if isinstance(l, ABits):
         if isinstance(r, ABits) or isinstance(r, (bytes, bytearray, BitArr)):
@@ -1404,10 +1410,30 @@ def b_divmod(fr, args, kw, n):
 
 def b_sum(fr, args, kw, n):
     items = fr.iterate(args[0], n)
+    # summands that are constant on this path are plain integers
+    items = [c if isinstance(x, AInt) and not x.isbool and (c := const_of(fr, x)) is not None else x for x in items]
     if any(is_abs(x) for x in items):
         # integers: added one by one with the same model as `+` (exact where no carry can occur — disjoint bit supports —
         # otherwise the arithmetic abstraction of `+`); other abstract summands stay one uninterpreted value
         if all(isinstance(x, (AInt, AFin)) or (isinstance(x, int) and not isinstance(x, bool) and x >= 0) for x in items):
+            if getattr(fr.I, "uninterpreted_arith", False) and len(items) > 2 and all(isinstance(x, AInt) and x.ext is None or isinstance(x, int) for x in items):
+                # many summands whose set bits overlap: ONE uninterpreted sum of all of them (a chain of pairwise uninterpreted
+                # sums names the same value by a term whose size grows quadratically)
+                def support(x):
+                    if isinstance(x, int):
+                        return {j for j in range(x.bit_length()) if x >> j & 1}
+                    return {j for j, b in enumerate(fr.I.simp_bits(x.bits)) if not (isinstance(b, F) and b.is_const and b.c == 0)}
+                seen_pos, overlap = set(), False
+                for x in items:
+                    sp = support(x)
+                    if sp & seen_pos:
+                        overlap = True
+                        break
+                    seen_pos |= sp
+                if overlap:
+                    w = max([len(x.bits) if isinstance(x, AInt) else x.bit_length() for x in items] + [1]) + max(1, len(items)).bit_length()
+                    start = list(args[1:2])
+                    return fn_int(fr, "arith:sum", start + items, min(w, 64))
             acc = args[1] if len(args) > 1 else 0
             for x in items:
                 acc = binop(fr, ast.Add(), acc, x, n)
@@ -1515,6 +1541,25 @@ _EXTRA = {"isinstance": isinstance, "print": print, "hasattr": hasattr, "type": 
           "next": next, "iter": iter, "StopIteration": StopIteration, "OverflowError": OverflowError, "callable": callable}
 for _k, _v in _EXTRA.items():
     SAFE.setdefault(_k, _v)
+def b_filter(fr, args, kw, n):
+    pred, items = args[0], fr.iterate(args[1], n)
+    out = []
+    for x in items:
+        t = x if pred is None else apply(fr, pred, [x], {}, n)
+        if fr.I.decide(t, f"filter:{n.lineno}") if is_abs(t) else t:
+            out.append(x)
+    return out
+
+
+def b_map(fr, args, kw, n):
+    cols = [fr.iterate(a, n) for a in args[1:]]
+    return [apply(fr, args[0], list(xs), {}, n) for xs in zip(*cols)]
+
+
+SAFE.setdefault("filter", filter)
+SAFE.setdefault("map", map)
+BUILTINS[filter] = b_filter
+BUILTINS[map] = b_map
 BUILTINS[isinstance] = b_isinstance
 BUILTINS[dict] = b_dict
 BUILTINS[next] = b_next
@@ -1964,6 +2009,8 @@ def bits_method(fr, b: ABits, name, args, kw, n):
 def external(fr, name, args, kw, n):
     I = fr.I
     short = name.split(".")[-1]
+    if name == "types.MappingProxyType" and len(args) == 1 and isinstance(args[0], dict):
+        return args[0]   # a read-only view: reads behave like the dictionary (a store through it would be a TypeError, not modelled)
     if name in ("bitarray.bitarray", "bitarray"):
         endian = kw.get("endian", "big")
         if not args:
